@@ -41,6 +41,30 @@ type ordEval struct {
 	sels map[string]int64
 	// alias: locals standing for an operand expression (lv of `for i, lv := range l[:n]`, rv := r[i])
 	alias map[types.Object]ast.Expr
+	// recordOf resolves an expression to a record of operand expressions (this.key() returning
+	// keyT{this.Sum, this.Count}: field name -> expression, in declaration order); recs holds the
+	// locals bound to such records
+	recordOf func(x ast.Expr) *ordRecord
+	recs     map[types.Object]*ordRecord
+}
+
+type ordRecord struct {
+	names []string
+	exprs map[string]ast.Expr
+}
+
+// recOf: the record an expression stands for (a local bound to one, or a call that builds one).
+func (e *ordEval) recOf(x ast.Expr) *ordRecord {
+	x = ast.Unparen(x)
+	if id, ok := x.(*ast.Ident); ok && e.recs != nil {
+		if r, ok := e.recs[e.info.ObjectOf(id)]; ok {
+			return r
+		}
+	}
+	if e.recordOf != nil {
+		return e.recordOf(x)
+	}
+	return nil
 }
 
 // sideOf is side after locals that stand for an operand expression are replaced by it; a re-slice of
@@ -51,6 +75,14 @@ func (e *ordEval) sideOf(x ast.Expr) (string, string) {
 		if sl, ok := x.(*ast.SliceExpr); ok {
 			x = sl.X
 			continue
+		}
+		if sel, ok := x.(*ast.SelectorExpr); ok {
+			if r := e.recOf(sel.X); r != nil {
+				if fx, ok := r.exprs[sel.Sel.Name]; ok {
+					x = fx
+					continue
+				}
+			}
 		}
 		id, ok := x.(*ast.Ident)
 		if !ok || e.alias == nil {
@@ -238,6 +270,23 @@ func (e *ordEval) evalBool(x ast.Expr) bool {
 				}
 			}
 		}
+		// two records of operand fields compared as wholes: equal iff every field is
+		if v.Op == token.EQL || v.Op == token.NEQ {
+			if ra, rb := e.recOf(v.X), e.recOf(v.Y); ra != nil && rb != nil && len(ra.names) == len(rb.names) {
+				all := true
+				for _, nm := range ra.names {
+					o, ok := e.cmpOperands(ra.exprs[nm], rb.exprs[nm])
+					if !ok {
+						e.fail("records %s and %s do not pair field %s of the two operands", types.ExprString(v.X), types.ExprString(v.Y), nm)
+						return false
+					}
+					if o != 0 {
+						all = false
+					}
+				}
+				return all == (v.Op == token.EQL)
+			}
+		}
 		// direct comparison of the two operands
 		if o, ok := e.cmpOperands(v.X, v.Y); ok {
 			switch v.Op {
@@ -398,8 +447,24 @@ func (e *ordEval) run(list []ast.Stmt) (ordResult, bool) {
 					}
 				}
 			}
+			// a, b := x, y: independent pairs
+			if len(v.Lhs) > 1 && len(v.Lhs) == len(v.Rhs) {
+				for i := range v.Lhs {
+					if res, ret := e.run([]ast.Stmt{&ast.AssignStmt{Lhs: []ast.Expr{v.Lhs[i]}, Tok: v.Tok, TokPos: v.TokPos, Rhs: []ast.Expr{v.Rhs[i]}}}); ret {
+						return res, true
+					}
+				}
+				continue
+			}
 			if len(v.Lhs) == 1 && len(v.Rhs) == 1 {
 				if id, ok := v.Lhs[0].(*ast.Ident); ok {
+					if r := e.recOf(v.Rhs[0]); r != nil {
+						if e.recs == nil {
+							e.recs = map[types.Object]*ordRecord{}
+						}
+						e.recs[e.info.ObjectOf(id)] = r
+						continue
+					}
 					// aliases of the operands (that := o.(*T)) are resolved by side(); integer locals evaluated
 					if s, _ := e.sideOf(v.Rhs[0]); s != "" {
 						if e.alias == nil {
